@@ -368,6 +368,9 @@ class TextEval:
             if isinstance(f, ast.Name) and f.id in ('str', 'list', 'tuple') \
                     and len(e.args) == 1:
                 return self.seq(e.args[0], env)
+            if isinstance(f, ast.Name) and f.id in ('str', 'list', 'tuple') \
+                    and not e.args and not e.keywords:
+                return []                       # the empty text / list
             if call_name(e).startswith('self.'):
                 return [Item('call', e)]
             return [Item('opaque', e)]
@@ -1475,9 +1478,22 @@ def exec_cmd(prog, rep, rid):
               'with 0 and the task is DONE')
 
 
-def rank_loop(f):
+def rank_loop(f, labels=()):
+    """the loop which emits one `N)` branch of the per-rank case per
+    iteration: the range() loop of f - if there are several, the one around
+    the case label pieces `labels` (ast nodes)"""
     loops = [n for n in walk(f.node) if isinstance(n, ast.For) and
              isinstance(n.iter, ast.Call) and dotted(n.iter.func) == 'range']
+    if len(loops) > 1 and labels:
+        ids = {id(x) for x in labels}
+        around = [lp for lp in loops
+                  if any(id(x) in ids for x in walk(lp))]
+        # (the innermost one: a loop around the rank loop is no rank loop)
+        around = [lp for lp in around
+                  if not any(o is not lp and any(x is o for x in walk(lp))
+                             for o in around)]
+        if around:
+            loops = around
     if len(loops) != 1:
         raise AnalysisError('UNRECOGNISED-IDIOM %s: %d range() loops'
                             % (f.where, len(loops)))
@@ -1492,29 +1508,44 @@ def rank_loop(f):
     return lp, rv[0], inner
 
 
+def case_labels(prog, f):
+    """the `N)` label pieces of the per-rank case in the text of f"""
+    T, its = script_items(prog, f)
+    return [it for it, pa in its if it.kind == 'fmt' and
+            re.match(r'^\s*%[ds]\)\s*$', it.text) and in_loop(pa)]
+
+
 def rank_scopes(prog, f):
-    """[(function, node whose body runs once per rank, {names holding the
-    rank index})]: the range(n_ranks) loop of f, and the helpers it hands the
-    rank index to (extract-method form of the loop body)"""
-    lp, rv, _ = rank_loop(f)
-    out = [(f, lp, {rv})]
+    """[(function, node whose body runs once per rank, {name: key shape})]:
+    the range(n_ranks) loop of f, and the helpers it hands the rank index (or
+    a key derived from it: `str(rank_id)`) to - the extract-method form of
+    the loop body.  The shape (see key_shape) of a name says how the value it
+    holds derives from the rank index."""
+    lp, rv, _ = rank_loop(f, [it.node for it in case_labels(prog, f)])
+    top = {rv: ('INT', '<i>')}
+    out = [(f, lp, top)]
     seen = {f.where}
-    for c in calls_in(lp):
-        g = prog.resolve_call(f, c)
-        if g is None or g.cls is None or g.where in seen:
-            continue
-        ps = [p for p in g.params if p not in ('self', 'cls')]
-        idx = set()
-        for i, a in enumerate(c.args):
-            if isinstance(a, ast.Name) and a.id == rv and i < len(ps):
-                idx.add(ps[i])
-        for k in c.keywords:
-            if isinstance(k.value, ast.Name) and k.value.id == rv and \
-                    k.arg in ps:
-                idx.add(k.arg)
-        if idx:
-            seen.add(g.where)
-            out.append((g, g.node, idx))
+    work = [(f, lp, top)]
+    while work:
+        h, body, hidx = work.pop()
+        for c in calls_in(body):
+            g = prog.resolve_call(h, c)
+            if g is None or g.cls is None or g.where in seen:
+                continue
+            ps = [p for p in g.params if p not in ('self', 'cls')]
+            idx = {}
+            pairs = [(ps[i], a) for i, a in enumerate(c.args)
+                     if i < len(ps) and not isinstance(a, ast.Starred)]
+            pairs += [(k.arg, k.value) for k in c.keywords if k.arg in ps]
+            for p, a in pairs:
+                sh = key_shape(h.node, a, hidx)
+                if sh is not None and sh[1] != 'const':
+                    idx[p] = sh
+            if idx:
+                seen.add(g.where)
+                out.append((g, g.node, idx))
+                if len(seen) < 6:
+                    work.append((g, g.node, idx))
     return out
 
 
@@ -1552,7 +1583,11 @@ def rank_case(prog, rep, rid):
     d = Deps(f.node)
     ps = [p for p in f.params if p != 'self']
     nr = ps[1]
-    lp, rv, _inner = rank_loop(f)
+    labels = case_labels(prog, f)
+    if not labels:
+        raise AnalysisError('UNRECOGNISED-IDIOM %s: no case label piece'
+                            % f.where)
+    lp, rv, _inner = rank_loop(f, [it.node for it in labels])
     a = lp.iter.args
     full = (len(a) == 1 and unparse(a[0]) == nr) or \
         (len(a) in (2, 3) and isinstance(a[0], ast.Constant) and
@@ -1565,12 +1600,6 @@ def rank_case(prog, rep, rid):
               % (short(lp.iter, 40), nr), loc=f.loc(lp),
               history="ranks=2, pre_exec=[{'0': 'a', '1': 'b'}]: one of the "
               'ranks never runs its command')
-    T, its = script_items(prog, f)
-    labels = [it for it, pa in its if it.kind == 'fmt' and
-              re.match(r'^\s*%[ds]\)\s*$', it.text) and in_loop(pa)]
-    if not labels:
-        raise AnalysisError('UNRECOGNISED-IDIOM %s: no case label piece'
-                            % f.where)
     for it in labels:
         rep.check(any(rv in d.expr_depends(v) for v in it.vals), rid, f,
                   'the case label is the rank id', construct=it.node,
@@ -1585,7 +1614,7 @@ def rank_case(prog, rep, rid):
         for n, key, kind in rank_lookups(scope):
             if kind == 'lookup':
                 n_look += 1
-            rep.check(bool(idx & dg.expr_depends(key)), rid, g,
+            rep.check(bool(set(idx) & dg.expr_depends(key)), rid, g,
                       'per-rank %s is keyed by the rank id' % kind,
                       construct=n,
                       message='`%s`: the %s inside the rank loop does not use '
@@ -1717,7 +1746,7 @@ def key_shape(fnode, e, idx, _seen=()):
         return None
     if isinstance(e, ast.Name):
         if e.id in idx:
-            return ('INT', '<i>')
+            return idx[e.id] if isinstance(idx, dict) else ('INT', '<i>')
         if e.id in _seen:
             return None
         vals = local_defs(fnode).get(e.id, [])
@@ -1772,7 +1801,9 @@ def consumer_keys(prog):
     for scope in rank_scopes(prog, f):
         g, body, idx = scope
         for n, key, kind in rank_lookups(scope):
-            sh = key_shape(g.node, key, idx | index_vars(g.node))
+            names = {x: ('INT', '<i>') for x in index_vars(g.node)}
+            names.update(idx)
+            sh = key_shape(g.node, key, names)
             (lookups if kind == 'lookup' else repl).append((n, sh))
     shapes = {sh for _, sh in lookups}
     if not lookups or None in shapes or len(shapes) != 1:
